@@ -212,8 +212,14 @@ impl Archive {
         let mut blocks = HashSet::new();
         for band_id in band_ids {
             let band = Band::open(&archive, *band_id).await?;
-            let mut iter = band.index().iter_available_hunks().await;
-            while let Some(hunk) = iter.next().await {
+            // Any hunk that can't be listed, read, or decoded must stop the scan: treating it
+            // as referencing nothing would let gc delete blocks that are still in use.
+            let mut index = band.index();
+            for hunk_number in index.hunks_available().await? {
+                let hunk = index
+                    .read_hunk(hunk_number)
+                    .await?
+                    .ok_or(Error::DeleteWithConcurrentActivity)?;
                 for addr in hunk.into_iter().flat_map(|entry| entry.addrs) {
                     blocks.insert(addr.hash);
                     task.increment(1);
